@@ -305,14 +305,35 @@ impl StoreTransaction {
         )
     }
 
-    /// Inserts epoch extension data.
+    /// Inserts epoch extension data and points the epoch number at it.
     pub fn insert_epoch_ext(&self, hash: &packed::Byte32, epoch: &EpochExt) -> Result<(), Error> {
+        self.insert_epoch_ext_record(hash, epoch)?;
+        self.insert_epoch_index(epoch.number(), hash)
+    }
+
+    /// Inserts epoch extension data only, without touching the epoch number index.
+    ///
+    /// Used for blocks which are not (yet) on the main chain: the epoch number index must
+    /// always refer to the epochs of the main chain.
+    pub fn insert_epoch_ext_record(
+        &self,
+        hash: &packed::Byte32,
+        epoch: &EpochExt,
+    ) -> Result<(), Error> {
         self.insert_raw(
             COLUMN_EPOCH,
             hash.as_slice(),
             Into::<packed::EpochExt>::into(epoch).as_slice(),
-        )?;
-        let epoch_number: packed::Uint64 = epoch.number().into();
+        )
+    }
+
+    /// Points the epoch number at the epoch extension data stored under `hash`.
+    pub fn insert_epoch_index(
+        &self,
+        epoch_number: ckb_types::core::EpochNumber,
+        hash: &packed::Byte32,
+    ) -> Result<(), Error> {
+        let epoch_number: packed::Uint64 = epoch_number.into();
         self.insert_raw(COLUMN_EPOCH, epoch_number.as_slice(), hash.as_slice())
     }
 
